@@ -17,6 +17,7 @@
   `DNS53.resolve` on a shared harness-owned Cacher, injected RoundTripper, loopback UDP server,
   virtual time) and by the regenerated facts of `NV.Gen.Cache`.
 -/
+import NV.Gen.PkgState
 import NV.Lemmas.Cache
 import NV.Gen.Cache
 import NV.Gen.Dispatch
@@ -444,6 +445,13 @@ theorem gen_resolve_dispatch :
       else c.2 == []) = true ∧
     (Gen.Dispatch.cases.any fun c => c.1 == "*endpoint.DOHEndpoint") = true ∧
     (Gen.Dispatch.cases.any fun c => c.1 == "*endpoint.DNSEndpoint") = true := by
+  decide
+
+/-- **regenerated (no hidden state between exchanges)**, as `NV.C03.gen_no_hidden_process_state`: no package-level variable of
+the query-path packages is written after initialisation except the root-certificate pool — an answer can only cross from one question to another through the cache, whose keys `cache_inv` governs. -/
+theorem gen_no_hidden_process_state :
+    (Gen.PkgState.table.all fun r =>
+      r.2.2.isEmpty || (r.1 == "resolver/endpoint" && (r.2.1 == "rootCAInit" || r.2.1 == "rootCAs"))) = true := by
   decide
 
 end NV.C06
